@@ -139,21 +139,44 @@ func (rn *runner) monitor(s *gi.Session, st *gi.Step) {
 			bad("multi-alloc-"+st.Class, st.Impl)
 		}
 	default:
-		// a fault on a delete of the rollback loop is a SECOND failure next to the failing create: outside C08's
-		// quantifier (it is C05's known finding rollback-delete-fault-leaks-object); replays of a prefix can shift the
-		// call indices (map iteration), so an index meant for a create may land there
+		// any failure: nothing may stay allocated — except an address whose rollback delete itself failed (a create
+		// failure PLUS a delete failure): that one stays allocated to the key in BOTH memory and store
+		kept := map[uint32]bool{}
 		for _, c := range st.Calls {
 			if c.Verb == "delete" && c.Err == "injected" {
-				rn.R.Hit("skipped:fault-landed-on-rollback-delete")
-				return
+				if ip, ok := gi.ParseU32(c.Name); ok {
+					kept[ip] = true
+				}
 			}
 		}
-		// any failure: nothing may stay allocated, in memory or in the store
-		if d := sameMem(st.Before, after); d != "" {
-			bad("multi-alloc-partial-after-failure", "memory changed: "+d)
+		if len(kept) > 0 {
+			rn.R.Hit("branch:rollback-delete-failed")
 		}
-		if d := sameStore(st.StBefore, stAfter); d != "" {
-			bad("multi-alloc-partial-after-failure", "store changed: "+d)
+		want := gi.Rec{Key: op.Key, Policy: op.Policy, Node: op.Node, UID: op.UID}
+		expMem := gi.Mem{Alloc: map[uint32]gi.Rec{}, Free: map[uint32]bool{}}
+		for ip, r := range st.Before.Alloc {
+			expMem.Alloc[ip] = r
+		}
+		for ip := range st.Before.Free {
+			expMem.Free[ip] = true
+		}
+		expStore := map[uint32]gi.Rec{}
+		for ip, r := range st.StBefore {
+			expStore[ip] = r
+		}
+		for ip := range kept {
+			if !st.Before.Free[ip] {
+				bad("multi-alloc-kept-non-free", gi.IPStr(ip)+" was not free before")
+			}
+			delete(expMem.Free, ip)
+			expMem.Alloc[ip] = want
+			expStore[ip] = want
+		}
+		if d := sameMem(expMem, after); d != "" {
+			bad("multi-alloc-partial-after-failure", "memory: "+d)
+		}
+		if d := sameStore(expStore, stAfter); d != "" {
+			bad("multi-alloc-partial-after-failure", "store: "+d)
 		}
 		// "not enough" must be true: some range list has no free routable address left
 		if st.Class == "noenough" {
@@ -200,6 +223,9 @@ func (rn *runner) oneCase() {
 			}
 		case x < 8:
 			op = gi.Op{Kind: "admres", IP: anyFree(e, v), Key: "pool__reserved-for-node_", Plan: gi.NoPlan()}
+			if v.HasPending(op.IP) {
+				op = gi.Op{Kind: "deliver", Plan: gi.NoPlan()}
+			}
 		default:
 			op = gi.Op{Kind: "deliver", Plan: gi.NoPlan()}
 		}
@@ -238,15 +264,12 @@ func (rn *runner) oneCase() {
 	}
 	rn.R.Case(strings.Join(base.Src, "\n"), len(req.Ranges) >= 2 && (st.Class == "ok" || ncreate > 0))
 	rn.R.Sample(map[string]interface{}{"request": req.JSON(), "result": st.Impl})
-	// a create fault at every index of a create call (and one index past the last call, which must not fire);
-	// faults on the deletes of the rollback loop are a second failure, outside C08's quantifier (see C05)
+	// a fault at every call index: every create, every rollback delete of the base run, and one index past the last
+	// call (which must not fire)
 	var idx []int
-	for i, c := range st.Calls {
-		if c.Verb == "create" {
-			idx = append(idx, i)
-		}
+	for i := 0; i <= len(st.Calls); i++ {
+		idx = append(idx, i)
 	}
-	idx = append(idx, len(st.Calls))
 	for _, f := range idx {
 		s := gi.Prefix(ops, len(ops)-1, nil)
 		r2 := req
